@@ -19,19 +19,21 @@ from .scen import US
 TUNS = ["10.9.0.1/24", "10.9.0.1/24", "10.9.0.5/28", "172.20.1.1/16", "10.9.0.1/29", "10.9.0.2/30",
         "10.0.0.1/8", "192.168.77.129/27", "10.9.0.14/28", "10.9.0.6/29"]
 CMDS = ["I", "S", "O", "N", "R", "P", "data", "rawlogin", "rawdata", "rawping"]
-LOGINS = ["L_replay", "L_other", "L_bitflip", "L_pm1", "L_short", "L_wrongpw", "L_truncdigest"]
+LOGINS = ["L_replay", "L_other", "L_bitflip", "L_pm1", "L_short", "L_wrongpw", "L_truncdigest", "L_relatedpw"]
 
 
 def gen_cfg(rng, idx):
     pw = bytes(rng.choice(range(1, 256)) for _ in range(rng.choice([1, 3, 6, 8, 16, 31, 32, 32])))
     if rng.random() < 0.4:
-        pw = rng.choice([b"secret", b"x", b"correct horse battery staple!!!", b"\xff" * 32, b"pass word"])
+        pw = rng.choice([b"secret", b"x", b"correct horse battery staple!!!", b"\xff" * 32, b"pass word", b"Two Words", b"tab\there", b"MiXeD case 123"])
     return {"tun": TUNS[idx % len(TUNS)] if idx < 2 * len(TUNS) else rng.choice(TUNS),
             "check_ip_off": rng.random() < 0.4,
             "password_hex": pw.hex(),
             "nops": rng.randint(35, 90),
             "v6": rng.random() < 0.35,
             "qtype": rng.choice(list(proto.QTYPES.values())),
+            # the server is given its password on standard input (no -P, no environment variable) when that is possible
+            "pw_stdin": rng.random() < 0.3 and b"\n" not in pw and b"\0" not in pw and pw.strip() == pw and len(pw) <= 32,
             "rseed": rng.getrandbits(32)}
 
 
@@ -73,7 +75,7 @@ def run_history(tag, cfg, seed, nops=None):
     H.attacks = {}         # (kind, target state, source) -> count
     H.ident = 1
     extra = ["-c"] if cfg["check_ip_off"] else []
-    H.srv = sim.server(tun=cfg["tun"], password=H.password, extra=extra)
+    H.srv = sim.server(tun=cfg["tun"], password=H.password, extra=extra, password_on_stdin=bool(cfg.get("pw_stdin")))
     if not H.srv.alive():
         H.why = "server-died-at-start"
         return H
@@ -515,6 +517,14 @@ def op_login_attack(H):
         dg = bytes(b)
     elif kind == "L_pm1":
         dg = proto.login_hash(pw, (ch + rng.choice([1, -1, 256, -256, 1 << 24])) & 0xFFFFFFFF)
+    elif kind == "L_relatedpw":
+        # a password related to the real one the way careless input handling relates them: the first word only, the last
+        # character dropped, cut at 8 / 16 / 31 characters, the case of letters swapped, high bits stripped, a newline attached
+        p0 = pw
+        alts = [p0.split(b" ")[0], p0.split(b"\t")[0], p0[:-1], p0[:8], p0[:16], p0[:31], p0.swapcase(), bytes(c & 0x7F for c in p0),
+                p0 + b"\n", p0.strip(), p0.lower()]
+        alts = [a for a in alts if (a + b"\0" * 32)[:32] != (p0 + b"\0" * 32)[:32]]
+        dg = proto.login_hash(rng.choice(alts), ch) if alts else None
     elif kind == "L_wrongpw":
         alt = bytearray((pw + b"\0" * 32)[:32])
         alt[rng.randrange(32)] ^= rng.choice([1, 0x20, 0x80])
